@@ -81,6 +81,26 @@ register("C04",
     "Trusted: engine/microai; angle classes of angleBetween abstracted to {0, (0,pi), pi}.",
     "symbolic interpretation (decision tables) of heuristic / comparator / cost + who-writes rules on the A* node fields",
     "DESIGN.md §5 C04")
+register("C07",
+    "Decides structurally that what run() enforces is what makeFeasible() makes feasible (the two translators of every compound-constraint "
+    "class build the same constraint shapes), that every generated constraint records its creator before it is emitted, that projection is "
+    "preceded by generation from all compound and extra constraints into the projected set, that project() solves and publishes all n "
+    "positions, that checkUnsatisfiable reports exactly the flagged constraints, and that no size-changing writer of a node rectangle is "
+    "reachable from the layout entry points. Does not decide numerical satisfaction to 1e-4 or NaN-freeness. The uninitialised "
+    "DistributionConstraint::sep is a known finding reported under C15.",
+    "Trusted: clang AST/CFG/call graph; exempt classes (OrthogonalEdgeConstraint, PageBoundaryConstraints) per the code's own comments.",
+    "sibling comparison of constraint-construction shapes (normal forms + path conditions), CFG must-precede, call-graph reachability",
+    "DESIGN.md §5 C07")
+register("C17",
+    "Strong on small multigraphs: floyd_warshall, johnsons and dijkstra (every source) are interpreted symbolically with positive symbolic "
+    "edge weights; each leaf of the resulting decision tree is compared with an independent Bellman-Ford on all weight assignments in "
+    "{1..4}^k satisfying it, and the leaves must partition the assignments (triangle, path+isolated node, parallel and reversed-parallel "
+    "edges, self-loop, unit weights, square+chord): exact lengths, zero diagonal, symmetry, the unreachable sentinel. "
+    "ConstrainedFDLayout::computePathLengths is checked the same way for scaling, sentinel, adjacency classes and replacement of "
+    "non-positive lengths. Does not decide larger graphs beyond these shapes nor floating-point rounding.",
+    "Trusted: engine/microai incl. its model of std::vector / valarray / the PairingHeap code it interprets; weights bounded far below DBL_MAX.",
+    "symbolic interpretation (decision trees over path-length comparisons) vs Bellman-Ford reference on enumerated small weights",
+    "DESIGN.md §5 C17")
 for _p, _r in {
  "C06": "equality of route costs between an incrementally edited router and a fresh one quantifies over run-time visibility-graph contents after arbitrary edit histories; no rule over code shape is a necessary condition of it",
  "C12": "tree-ness and terminal preservation of hyperedges are invariants of dynamically rewritten run-time graphs; not visible in code shape",
